@@ -132,18 +132,11 @@ def docFile (tree : Tree) : Nat → List Name → Name → Option (List Mapping)
   | 0, _, _ => none
   | depth + 1, parents, name =>
     if name ∈ parents then none else
-    match docResolveFile tree name with
-    | none => none
-    | some (place, kvs) =>
-      match includeNames (splitAtInclude kvs).2.1 with
-      | .error _ => none
-      | .ok incs =>
-        match mapO (fun i => docResolve i place) incs with
-        | none => none
-        | some names =>
-          match mapO (docFile tree depth (parents ++ [name])) names with
-          | none => none
-          | some pss => some ([(splitAtInclude kvs).1] ++ pss.flatten ++ [(splitAtInclude kvs).2.2])
+    (docResolveFile tree name).bind fun pk =>
+    (toOpt (includeNames (splitAtInclude pk.2).2.1)).bind fun incs =>
+    (mapO (fun i => docResolve i pk.1) incs).bind fun names =>
+    (mapO (docFile tree depth (parents ++ [name])) names).bind fun pss =>
+    some ([(splitAtInclude pk.2).1] ++ pss.flatten ++ [(splitAtInclude pk.2).2.2])
 
 def docList (tree : Tree) (depth : Nat) (parents : List Name) (names : List Name) : Option (List Mapping) :=
   (mapO (docFile tree depth parents) names).map List.flatten
